@@ -150,4 +150,80 @@ pub fn run(prop: &'static str, tier: Tier, rep: &mut Report) {
             }
         }
     }
+    extremes(prop, rep, &mut push);
+}
+
+/// Unrepresentable instants: refresh period and / or timeout of Duration::MAX, limit 1, two
+/// calls at instant 0. The first is admitted at once; the second
+/// * period MAX, timeout MAX: can never get a permit and never times out - it keeps waiting
+///   (an hour of virtual time is observed); a rejection is tolerated, an admission or a panic
+///   is not;
+/// * period 40 ms, timeout MAX: is admitted when the next window opens (40..=80 ms);
+/// * period MAX, timeout 1 h: is rejected, at the latest after the hour.
+/// Each also under a clock that advances by a nanosecond per read (clock::set_drift): with a
+/// clock that stands still within a poll `start.elapsed()` is exactly zero at the first
+/// decision, which hides overflows of `elapsed + wait`.
+fn extremes(prop: &'static str, rep: &mut Report, push: &mut dyn FnMut(&mut Report, &str, &str, String, serde_json::Value, String)) {
+    const HOUR_MS: u64 = 3_600_000;
+    for window in [WindowType::Fixed, WindowType::SlidingLog, WindowType::SlidingCounter] {
+        for (period, timeout, drift) in [(None, None, false), (Some(40u64), None, false), (None, Some(HOUR_MS), false), (None, None, true), (Some(40u64), None, true), (None, Some(HOUR_MS), true)] {
+            let site = wname(window);
+            let config = format!(
+                "ratelimiter extremes window={} limit=1 period={} timeout={}{}",
+                site,
+                period.map_or("Duration::MAX".to_string(), |p| format!("{p}ms")),
+                timeout.map_or("Duration::MAX".to_string(), |t| format!("{t}ms")),
+                if drift { " clock=advances-a-nanosecond-per-read" } else { "" }
+            );
+            let w = World::new(0, 10, Mode::Script, 1);
+            trv_core::clock::set_drift(drift);
+            let layer = RateLimiterLayer::builder()
+                .limit_for_period(1)
+                .refresh_period(period.map_or(Duration::MAX, Duration::from_millis))
+                .timeout_duration(timeout.map_or(Duration::MAX, Duration::from_millis))
+                .window_type(window)
+                .build();
+            let svc = layer.layer(GatedInner::new(w.inner.clone()));
+            let mut outcomes: Vec<String> = vec![];
+            for id in 1..=2u32 {
+                let mut s = svc.clone();
+                let _ = drive_ready::<_, Req>(&mut s, 4);
+                let fut = s.call(Req::new(id, 0));
+                let origin = w.origin;
+                let r = std::panic::catch_unwind(std::panic::AssertUnwindSafe(|| {
+                    w.block_on(async move {
+                        // observe for two virtual hours
+                        match tokio::time::timeout(Duration::from_millis(2 * HOUR_MS), fut).await {
+                            Ok(Ok(_)) => format!("admitted@{}", origin.elapsed().as_millis()),
+                            Ok(Err(RateLimiterServiceError::RateLimited)) => format!("rejected@{}", origin.elapsed().as_millis()),
+                            Ok(Err(RateLimiterServiceError::Inner(_))) => "inner-error".to_string(),
+                            Err(_) => "waiting".to_string(),
+                        }
+                    })
+                }));
+                outcomes.push(r.unwrap_or_else(|_| "panicked".to_string()));
+            }
+            trv_core::clock::set_drift(false);
+            rep.evaluations += 1;
+            rep.distinct.insert(format!("{config}|{outcomes:?}"));
+            if std::env::var("VERIF_DEBUG_EXTREMES").is_ok() {
+                eprintln!("{config}: {outcomes:?}");
+            }
+            let hist = json!({"two_calls_at_0ms": outcomes});
+            let at = |o: &str| o.split('@').nth(1).and_then(|t| t.parse::<u64>().ok());
+            let first_ok = outcomes[0] == "admitted@0";
+            let second = outcomes[1].as_str();
+            let second_ok = match (period, timeout) {
+                (None, None) => second == "waiting" || second.starts_with("rejected"),
+                (Some(p), None) => second.starts_with("admitted") && at(second).map_or(false, |t| t >= p && t <= 2 * p),
+                (None, Some(t)) => second.starts_with("rejected") && at(second).map_or(false, |d| d <= t),
+                _ => unreachable!(),
+            };
+            if !first_ok || !second_ok {
+                let kind = if outcomes.iter().any(|o| o == "panicked") { "panic_with_unrepresentable_instant" } else if prop == "C02" { "window_overrun" } else { "extreme_configuration_decided_wrongly" };
+                push(rep, kind, site, config, hist, format!("two calls at 0 ms: {:?}", outcomes));
+            }
+            rep.witness("extreme_period_or_timeout", 1);
+        }
+    }
 }
